@@ -255,7 +255,10 @@ impl Mesh {
 struct MeshNearCheck<'a> {
     this_mesh: &'a Mesh,
     ref_mesh: &'a Mesh,
-    checked: HashMap<u32, bool>,
+    /// Memo of the part of the check that depends on the vertex alone: `None` if the vertex has no
+    /// projection within the distance tolerance (or fails the planar tolerance), otherwise the
+    /// normal of the reference triangle it projects onto (if that triangle has one)
+    checked: HashMap<u32, Option<Option<UnitVec3>>>,
     distance_tol: f64,
     planar_tol: Option<f64>,
     angle_tol: Option<f64>,
@@ -279,52 +282,51 @@ impl<'a> MeshNearCheck<'a> {
         }
     }
 
-    fn store_and_return(&mut self, vertex_index: u32, result: bool) -> bool {
+    /// The distance and planar tolerance checks of a single vertex. These do not depend on the
+    /// face the vertex is being checked for, so the result is computed once per vertex and reused
+    /// for every face which shares it.
+    fn vertex_check(&mut self, vertex_index: u32) -> Option<Option<UnitVec3>> {
+        if let Some(&checked) = self.checked.get(&vertex_index) {
+            return checked;
+        }
+
+        let p = self.this_mesh.vertices()[vertex_index as usize];
+        let result = if let Some((prj, ri, _loc)) =
+            self.ref_mesh.project_with_max_dist(&p, self.distance_tol)
+        {
+            let rn = self.ref_mesh.shape.triangle(ri).normal();
+            match (self.planar_tol, rn) {
+                (None, _) => Some(rn),
+                (Some(planar_tol), Some(n)) => {
+                    let rsp = SurfacePoint3::new(prj.point, n);
+                    if rsp.planar_distance(&p) <= planar_tol {
+                        Some(rn)
+                    } else {
+                        None
+                    }
+                }
+                // No reference normal, so we can't check the planar distance, assume it's bad
+                (Some(_), None) => None,
+            }
+        } else {
+            None
+        };
+
         self.checked.insert(vertex_index, result);
         result
     }
 
     fn near_check(&mut self, vertex_index: u32, face_normal: Option<UnitVec3>) -> bool {
-        if let Some(&checked) = self.checked.get(&vertex_index) {
-            checked
-        } else {
-            let p = self.this_mesh.vertices()[vertex_index as usize];
-
-            let is_ok = if let Some((prj, ri, _loc)) =
-                self.ref_mesh.project_with_max_dist(&p, self.distance_tol)
-            {
-                if self.planar_tol.is_none() && self.angle_tol.is_none() {
-                    true
-                } else if let Some(rn) = self.ref_mesh.shape.triangle(ri).normal() {
-                    // We need to get the normal of the reference triangle
-                    let rsp = SurfacePoint3::new(prj.point, rn);
-
-                    let check_planar = if let Some(planar_tol) = self.planar_tol {
-                        rsp.planar_distance(&p) <= planar_tol
-                    } else {
-                        true
-                    };
-
-                    let check_angle = if let Some(angle_tol) = self.angle_tol {
-                        if let Some(face_normal) = face_normal {
-                            face_normal.angle(&rn) <= angle_tol
-                        } else {
-                            // No face normal, so we can't check the angle, assume it's bad?
-                            false
-                        }
-                    } else {
-                        true
-                    };
-
-                    check_planar && check_angle
-                } else {
-                    false
-                }
-            } else {
-                false
-            };
-
-            self.store_and_return(vertex_index, is_ok)
+        match (self.vertex_check(vertex_index), self.angle_tol) {
+            (None, _) => false,
+            (Some(_), None) => true,
+            // The angle check depends on the face being tested as well as on the vertex, so it
+            // must not be stored in the per-vertex memo. If either normal is missing we can't
+            // check the angle, assume it's bad
+            (Some(rn), Some(angle_tol)) => match (face_normal, rn) {
+                (Some(face_normal), Some(rn)) => face_normal.angle(&rn) <= angle_tol,
+                _ => false,
+            },
         }
     }
 }
